@@ -1395,7 +1395,12 @@ func cbkDirectedCloseVsRestart(c *checkCtx, iters int) (done int, reached int, v
 			return false
 		}
 	}
+	misses := 0
+	started := time.Now()
 	for it := 0; it < iters; it++ {
+		if time.Since(started) > 10*time.Minute {
+			break // a budget, not a verdict: on a very slow machine fewer iterations are run
+		}
 		cl, err := p.client.OpenStream()
 		if err != nil {
 			return done, reached, "", "open: " + err.Error()
@@ -1447,8 +1452,17 @@ func cbkDirectedCloseVsRestart(c *checkCtx, iters int) (done int, reached int, v
 		if !ok {
 			sv.Close()
 			cl.Close()
+			misses++
+			if misses >= 3 {
+				// the parties cannot be brought to their points here (each miss costs seconds of waiting): give up, nothing is judged
+				if reached == 0 {
+					inc = "the three parties could not be held at their points together"
+				}
+				return
+			}
 			continue
 		}
+		misses = 0
 		reached++
 		select {
 		case <-closed:
